@@ -14,6 +14,7 @@ exhaustive bounded differential against Spec.Es5Parse in harness/checks/C03.py.
 import CalmVerif.Model.Grammar
 import CalmVerif.Gen.Tables.Cert
 import CalmVerif.Proofs.LRSound
+import CalmVerif.Spec.Es5Grammar
 namespace CalmVerif.Props.C03
 open CalmVerif.Model CalmVerif.Model.LR
 
@@ -27,6 +28,12 @@ theorem lr_sound {τ σ ε : Type} (ty : τ → Nat) (R : Source τ σ ε) (fuel
     (hacc : run Grammar.cached (treeSem (σ := σ) (ε := ε) ty) R fuel (initConfig s) = (.accepted v, c')) :
     v.valid Grammar.cached ty ∧ v.yield = c'.shifted.reverse :=
   run_sound tables_valid fuel _ _ _ (inv_init s) hacc
+
+/-- the grammar regenerated from /repo (as a set of productions) is the reviewed ES5 grammar pinned in
+    Spec/Es5Grammar.lean: any change to a p_* docstring breaks this obligation and triggers the search for a
+    program on which the parser now disagrees with the reference parser -/
+theorem grammar_is_reviewed : Gen.Tables.Cached.grammarLines = Spec.Es5Grammar.productions := by
+  decide +kernel
 
 /-- the driver is a function: same tables, source and fuel give the same outcome (determinism) -/
 theorem lr_deterministic {τ ν σ ε : Type} (S : Sem τ ν σ ε) (R : Source τ σ ε) (fuel : Nat)
